@@ -102,6 +102,8 @@ type Monitors struct {
 	cronJCs         map[string]*cronJC
 	bootSnap        map[int]map[string]bootJC // incarnation -> JobConfig key -> persisted state at boot
 	queueSyncBehind map[string]bool           // JobConfig key -> the latest queue sync ran ahead of the store notifications
+	queueSyncCursor map[string]int            // JobConfig key -> Job cache position when the latest queue sync started
+	freeSeq         map[string]int            // JobConfig uid -> log position of the latest event that freed capacity
 	lastSchedHWM    map[string]time.Time      // JobConfig uid -> latest status.lastScheduled ever persisted
 	Injecting       bool                      // the harness itself is re-delivering a schedule request
 	// JobConfigs (uid) for which a start write was applied but reported as a timeout to the queue controller
@@ -337,7 +339,12 @@ func (m *Monitors) onTaskStart(t *Task) {
 	if m.queueSyncBehind == nil {
 		m.queueSyncBehind = map[string]bool{}
 	}
+	// behind = the store has not yet handled an event that is already in the cache this sync reads
 	m.queueSyncBehind[fmt.Sprint(t.Item)] = t.Inc.Ctx.Inf.Job.ListenerPending(0) > 0
+	if m.queueSyncCursor == nil {
+		m.queueSyncCursor = map[string]int{}
+	}
+	m.queueSyncCursor[fmt.Sprint(t.Item)] = t.Inc.Ctx.Inf.Job.Cursor()
 }
 func (m *Monitors) onTaskDone(t *Task) {}
 func (m *Monitors) beforeTick()        {}
@@ -593,6 +600,9 @@ func (m *Monitors) podCreated(ev *Event, p *corev1.Pod, juid string) {
 	jr := m.jobs[juid]
 	j := m.jobByUIDLocked(juid)
 	m.Evals["C08"]++
+	if jr != nil && j == nil && jr.FinalizerStripped {
+		return // the user removed the Job by force: a reconcile on a cached copy may still act on it; the garbage collector owns the Pod now
+	}
 	if jr == nil || j == nil {
 		m.fail("C08", "create-for-missing-job", "task %s created for a Job (uid %s) that does not exist", p.Name, juid)
 		return
@@ -1053,6 +1063,12 @@ func (m *Monitors) onJob(ev *Event) {
 	if j.Spec.KillTimestamp != nil {
 		jr.KillTS = j.Spec.KillTimestamp.Time
 	}
+	if isActive(old) && (ev.Type == Deleted || !isActive(j)) && jr.JCUID != "" {
+		if m.freeSeq == nil {
+			m.freeSeq = map[string]int{}
+		}
+		m.freeSeq[jr.JCUID] = ev.Seq
+	}
 	if ev.Type == Deleted {
 		jr.Removed = true
 		jr.LastObj = j
@@ -1135,6 +1151,22 @@ func (m *Monitors) checkJobTransition(ev *Event, jr *jobRec, old, j *execution.J
 			if int64(active) < jc.Spec.Concurrency.GetMaxConcurrency() {
 				m.Evals["C06_refused_below_limit_in_truth"]++
 			}
+		}
+	}
+
+	// --- C09: the job controller may give up with an admission error only because an object that
+	// does not belong to the Job occupies a task name (or the node refused the Pod)
+	if !hadAdm && hasAdm && ctrl && m.w.current != nil && m.w.current.Ctl.Name == "job" {
+		m.Evals["C09_admission_error"]++
+		foreign := false
+		for k, rec := range m.pods {
+			if rec.NS == j.Namespace && strings.HasPrefix(rec.Name, j.Name+"-") && rec.JobUID != string(j.UID) && rec.Exists {
+				foreign = true
+			}
+			_ = k
+		}
+		if !foreign && !m.w.Opt.InvalidPodFaults {
+			m.fail("C09", "admission-error-without-foreign-object", "the job controller gave Job %s an admission error (%q) although no object foreign to the Job occupies any of its task names: a task of its own must be adopted, not treated as foreign", j.Name, j.Annotations[AnnAdmissionErr])
 		}
 	}
 
@@ -1583,7 +1615,10 @@ func (m *Monitors) Fixpoint() {
 					if jc := x.(*execution.JobConfig); string(jc.UID) == jr.JCUID {
 						max = jc.Spec.Concurrency.GetMaxConcurrency()
 						found = true
-						if m.queueSyncBehind[jc.Namespace+"/"+jc.Name] {
+						// the known finding: the queue did sync after the capacity-freeing event had reached
+						// its cache, but ahead of the store; a queue that was never woken is something else
+						k := jc.Namespace + "/" + jc.Name
+						if fs, ok := m.freeSeq[jr.JCUID]; ok && m.queueSyncBehind[k] && m.queueSyncCursor[k] > fs {
 							suffix = ":store-notified-after-queue-sync"
 						}
 					}
